@@ -1,6 +1,77 @@
 N = {"quick": 800, "thorough": 16000}
 EXHAUSTIVE = {"quick": False, "thorough": True}
-RULE = "placeholder"
-ASSUMPTIONS = []
-SOURCE_FILES = []
-LEVEL_TEXT = "placeholder"
+RULE = ("cases cycle through the 8 connectors (binance, bybit, bitmex, coinbase, gateio, kraken, okx: WebSocketSubValidator; bitfinex: "
+        "BitfinexWebSocketSubValidator). Each case: an instrument map of 0-3 entries over 2 channels x 3 markets (duplicate keys occur), then a "
+        "list of websocket items, then `run` (1-3 runs per case, each validating from scratch over everything so far). 55 % of the cases start from "
+        "a script that validates successfully (the expected confirmations in shuffled order, market payloads in between; Bitfinex: every confirmation "
+        "followed by its snapshot) with 0-2 mutations (insert / delete / replace) and 0-2 items queued behind it; 45 % are free mixtures (length <= 10, "
+        "thorough <= 14) of accepted / rejected responses in the venue's documented JSON shape (text or binary frames), undeserialisable payloads, "
+        "ping, pong, close frame, protocol-violating frame, silences of 3/6/9/12 s (sums never equal the 10 s timeout), the connectors' documented "
+        "success / failure example payloads; half of the cases end in a 12 s silence, the others in end of stream. Every run opens a loop-back "
+        "websocket (real `connect`, real tungstenite framing) and calls the real `<Exchange::SubValidator as SubscriptionValidator>::validate` under "
+        "tokio's paused clock. Thorough additionally enumerates every item list of length <= 4 over 7 symbols for Kraken with two subscriptions "
+        "(2 801 lists), of length <= 3 over 7 symbols for Bybit (400) and of length <= 4 over 9 symbols for Bitfinex with two subscriptions (7 381). "
+        "A case is distinct by the SHA-1 of its op lines and non-trivial when the implementation's trace shows at least two different observation blocks")
+ASSUMPTIONS = [
+    "the input of a validation is the finite list of items the socket yields, silences included; the end of the list is the end of the stream "
+    "(`websocket.next()` = None); serde deserialisation is exercised by the harness (real JSON through the real types) but not modelled: a frame "
+    "is either a deserialised response (its validate-relevant fields) or an undeserialisable payload",
+    "a transport error is followed by end of stream (tokio-tungstenite's stream is fused after an error); the validator itself ignores the error item",
+    "the timeout races are decided by the op list: silences are multiples of 3 s or 12 s, so no item arrives exactly when the 10 s sleep elapses "
+    "(`tokio::select!` picks at random between two ready branches)",
+    "timeout semantics: the code re-arms `sleep(timeout)` on every loop iteration, i.e. it measures each silence; `Connector::subscription_timeout` "
+    "is documented as the time the validator `will wait to receive all success responses` (one deadline). The theorems are about the code's reading and "
+    "relate it to the other one (deadline_ok_is_code_ok, code_timeout_is_deadline_timeout, readings_agree_within_deadline); where the two readings "
+    "differ the spec driver accepts either outcome (`res {a|b}`)",
+    "Gateio: the documented failure payload (`\"result\": null`) does not deserialise into GateioMessage<GateioSubResult>; the model treats it as an "
+    "undeserialisable payload (as the code does), the spec driver as a failure response (as documented); the generator does not emit `docfail` for "
+    "Gateio (concrete input in the report; `signature` labels it clause=documented_failure/gateio)",
+    "Bitfinex: the instrument map has one entry per `channel|market` key (Map::from_iter guarantees it: ofList_wf) and a decimal channel id never "
+    "equals a `channel|market` string; the statement about the returned map's entries assumes the venue announces pairwise distinct channel ids for "
+    "the confirmed subscriptions (`distinctIds`; otherwise an entry is overwritten and the spec driver does not constrain `map`); `follow-up payload` "
+    "= any undeserialisable message after the first confirmation, as the code counts them",
+    "usize counters are Nat (no overflow); payloads are identified by small numbers; instruments are numbers",
+]
+SOURCE_FILES = [
+    "barter-data/src/subscriber/validator.rs", "barter-data/src/exchange/mod.rs",
+    "barter-data/src/exchange/binance/subscription.rs", "barter-data/src/exchange/binance/mod.rs",
+    "barter-data/src/exchange/bybit/subscription.rs", "barter-data/src/exchange/bybit/mod.rs",
+    "barter-data/src/exchange/bitmex/subscription.rs", "barter-data/src/exchange/bitmex/mod.rs",
+    "barter-data/src/exchange/coinbase/subscription.rs", "barter-data/src/exchange/gateio/subscription.rs",
+    "barter-data/src/exchange/gateio/message.rs", "barter-data/src/exchange/kraken/subscription.rs",
+    "barter-data/src/exchange/okx/subscription.rs", "barter-data/src/exchange/bitfinex/subscription.rs",
+    "barter-data/src/exchange/bitfinex/validator.rs", "barter-integration/src/protocol/websocket.rs",
+]
+TRUSTED = [
+    "C13S: hand-written websocket server side of the harness (HTTP upgrade with own SHA-1/base64, unmasked frames, TIOCOUTQ delivery barrier, "
+    "reset-on-close); tokio paused clock with the validator and the venue joined in one block_on future; tokio-tungstenite framing",
+]
+
+
+def signature(ops, k, key, impl_line, spec_line):
+    ex = ops[0].split()[1] if ops and ops[0].startswith("init ") and len(ops[0].split()) > 1 else "?"
+    if ex == "gateio" and "docfail" in ops:
+        return "clause=documented_failure/gateio"
+    return f"clause={key}/{ex}"
+
+
+TECHNIQUE = ("Lean 4: refinement of the counter-threading validation loops to a history-based specification by induction over the input list "
+             "(invariant: the counters summarise the consumed history), relational characterisation of Ok / Err, map re-keying invariant for "
+             "Bitfinex; correspondence of the models with the real validators over a loop-back websocket under a paused clock")
+LEVEL_TEXT = ("Proof (sub-check of C13). Lean theorems over models of WebSocketSubValidator::validate, the eight connectors' SubResponse validators and "
+              "BitfinexWebSocketSubValidator::validate (lean/BarterModel/Props/C13S.lean), for every input list, timeout and expected count: the loop "
+              "computes the history-based specification (run_refines_spec); Ok iff a prefix without anything fatal holds the expected number of accepted "
+              "responses, Err iff the stream ends or the next item is fatal before that (ok_iff, err_iff, ok_iff_enough_before_anything_fatal); a "
+              "successful validation stops right after the k-th confirmation and leaves the rest of the socket untouched (ok_stops_at_kth_confirmation, "
+              "unread_untouched); every payload after the first confirmation is either buffered or still unread, in order (no_event_lost); rejected "
+              "responses, close frames, transport errors and end of stream are reported as such and finally (rejection_is_reported, close_is_reported, "
+              "error_is_final); pings only re-arm the timer (pings_invisible); a timeout needs a silence of the full duration (timeout_only_after_silence) "
+              "and the per-silence reading of the code is related to the documented one-deadline reading (readings_agree_within_deadline, "
+              "deadline_ok_is_code_ok, code_timeout_is_deadline_timeout); per connector the accepted responses are tabulated (…_accepts_iff, "
+              "documented_success_accepted, documented_failure_rejected, expected_responses_table); for Bitfinex the loop refines its specification and the "
+              "returned map contains exactly the confirmed channel ids mapped to the instruments subscribed under the confirmed symbols, with no "
+              "channel|market key left (bfx_ok_iff, bfx_err_iff, bfx_refines_spec, bfx_map_is_rekeyed). The models are tied to the code by driving the "
+              "real validators through a loop-back websocket on every run.")
+LEVEL_NOTE = ("Trusted: Lean kernel; axioms propext/Classical.choice/Quot.sound only; the hand-written models (tied by sampled correspondence: 800 quick / "
+              "16 000 random + 10 582 exhaustive small-scope lists thorough); the harness' own websocket server side and the paused clock. Serde "
+              "deserialisation is exercised, not modelled.")
